@@ -116,7 +116,7 @@ fn generate(rng: &mut Rng) -> ConnScenario {
     let mut client = ClientSpec::base(rng, intent);
     client.locale = gen_locale(rng);
     client.info_delay_ns = *rng.pick(&[0u64, 0, ms(50), secs(20)]);
-    ConnScenario {
+    let mut sc = ConnScenario {
         seed: rng.next_u64(),
         cfg: ConnCfg {
             secret: if rng.chance(1, 2) { Some(rng.bytes(16)) } else { None },
@@ -129,7 +129,9 @@ fn generate(rng: &mut Rng) -> ConnScenario {
         client,
         wplan: vec![],
         cap_ns: secs(900),
-    }
+    };
+    zero_time_noise(rng, &mut sc);
+    sc
 }
 
 pub fn check(sc: &ConnScenario, out: &ConnOutcome, rep: &mut RunReport) {
@@ -265,7 +267,7 @@ impl Check for C03 {
         generate(rng)
     }
     fn execute(&self, sc: &ConnScenario) -> RunReport {
-        if !conn_domain_ok(sc) || !matches!(sc.client.intent, 2 | 3) || sc.client.script.is_some() || !sc.client.mutations.is_empty() || !matches!(sc.client.enc, crate::client::EncVariant::Honest) || !sc.client.send_info {
+        if !conn_domain_ok(sc) || !matches!(sc.client.intent, 2 | 3) || sc.client.script.is_some() || !sc.client.mutations.is_empty() || !matches!(sc.client.enc, crate::client::EncVariant::Honest) || !sc.client.send_info || !transport_is_zero_time(sc) {
             return RunReport::default();
         }
         let out = run_conn(sc);
